@@ -1184,7 +1184,18 @@ def bounding_box_in_pixel_domain(
     # offset of ``geobox`` in ``reference`` pixels
     tx, ty = pixel_translation(geobox, reference).xy
 
-    if not (is_almost_int(tx, tol) and is_almost_int(ty, tol)):
+    # Origins are only known to the floating point spacing of their coordinates,
+    # for small pixels far away from the CRS origin that is more than ``tol`` of a pixel.
+    rx, ry = (abs(r) for r in reference.resolution.xy)
+    tol_x, tol_y = (
+        max(tol, 4 * math.ulp(max(abs(a), abs(b))) / r) if r > 0 else tol
+        for a, b, r in [
+            (geobox.affine.c, reference.affine.c, rx),
+            (geobox.affine.f, reference.affine.f, ry),
+        ]
+    )
+
+    if not (is_almost_int(tx, tol_x) and is_almost_int(ty, tol_y)):
         raise ValueError("Incompatible grids")
 
     tx, ty = round(tx), round(ty)
